@@ -91,7 +91,7 @@ theorem C08_sets_exact (t : Topo) (p : Params) (t' : Topo) (h : restrictCore t p
     multiset before the call: no object is created, duplicated, re-typed or re-numbered -/
 theorem C08_survivors (t : Topo) (s : CSet) (flags : Nat) (a : RObj) :
     cnt ident a (objsT (restrict t s flags).1.tree) ≤ cnt ident a (objsT t.tree) :=
-  cnt_restrict ident a t s flags (fun p o => ident_shrinkG p o)
+  cnt_restrict ident a t s flags (fun p o => ident_shrinkG p o) (fun _ _ => rfl)
 
 /-- … and, stronger, for the tree recursion alone: the multiset of "object with its sets minus the dropped resources" -/
 theorem C08_survivors_sets (t : Topo) (p : Params) (t' : Topo) (h : restrictCore t p = some t') (a : RObj) :
@@ -203,11 +203,31 @@ theorem C08_merge_decision (filters : List Nat) (up down : List RObj) (o1 o2 : R
   mergeDecision_sound filters up down o1 o2 h1 h2
 
 /-- P2: merging an object with its single normal child removes exactly one of the two objects; every other object of the
-    subtree (normal, memory, I/O, Misc) is kept unchanged -/
+    subtree (normal, memory, I/O, Misc) is kept, unchanged except that a child replacing a parent that has memory children takes over the parent's
+    complete sets (`noComplete` = the object without its complete sets) -/
 theorem C08_merge_exact (a : RObj) (rc : Bool) (o co : RObj) (cns cms cios cmis ms ios mis : List Tree) :
-    cnt id a (objsT (mergeNode rc o [.node co cns cms cios cmis] ms ios mis)) + cnt1 id a (if rc then co else o) =
-      cnt id a (objsT (.node o [.node co cns cms cios cmis] ms ios mis)) :=
-  cnt_mergeNode_exact id a rc o co cns cms cios cmis ms ios mis
+    cnt noComplete a (objsT (mergeNode rc o [.node co cns cms cios cmis] ms ios mis)) + cnt1 noComplete a (if rc then co else o) =
+      cnt noComplete a (objsT (.node o [.node co cns cms cios cmis] ms ios mis)) :=
+  cnt_mergeNode_exact noComplete a (fun _ _ => rfl) rc o co cns cms cios cmis ms ios mis
+
+/-- P0 restrict_wf (set clauses, whole call): SetsOK is preserved by level merging (hwloc fixes e57fd49 + 5bd7047: the child that
+    replaces a parent with memory children takes over the parent's complete sets, so the parent's memory children stay inside their new
+    parent's complete sets) and therefore by the whole call -/
+theorem C08_merge_preserves_setsok (filters : List Nat) (t : Tree) (h : okT t = true) : okT (keepStructure filters t) = true :=
+  ok_keepStructure filters t h
+
+theorem C08_wf_sets_whole (t : Topo) (s : CSet) (flags : Nat) (h : okT t.tree = true) :
+    okT (restrict t s flags).1.tree = true := ok_restrict t s flags h
+
+/-- P0 restrict_sets (whole call, exact): after a successful call, level merging included, every object has all four sets
+    free of dropped resources, and the multiset of objects (complete sets left aside, because merging may or a dropped
+    parent's complete sets into its child) is included in the multiset of "old object with cpuset and nodeset minus the
+    dropped resources" -/
+theorem C08_sets_exact_whole (t : Topo) (s : CSet) (flags : Nat) (p : Params) (hp : plan t s flags = some p)
+    (hret : (restrict t s flags).2 = .ok) (hok : okT t.tree = true) (a : RObj) :
+    (∀ x ∈ objsT (restrict t s flags).1.tree, shrinkU p x = x) ∧
+    cnt noComplete a (objsT (restrict t s flags).1.tree) ≤ cnt (fun x => noComplete (shrinkU p x)) a (objsT t.tree) :=
+  restrict_exact t s flags p hp hret hok a
 
 /-- Package 0 {L2 {PU0}} with NUMA node 0 whose complete cpuset {0,1} covers the offline PU 1, and Package 1 {L2 {PU2}, L2 {PU3}} with NUMA node 1;
     Packages are filtered KEEP_STRUCTURE -/
@@ -220,24 +240,33 @@ def demoMerge : Topo :=
          [.node ⟨11, tNUMA, 1, 12, 12, 2, 2, true, 0, 0, 0⟩ [] [] [] []] [] []] [] [] [],
     allowedCpu := 13, allowedNode := 3, filters := (List.replicate 20 0).set tPACKAGE filterKeepStructure }
 
-/-- **finding merge-complete-sets (model side)**: SetsOK is preserved by the tree recursion (C08_wf_sets) but NOT by the level
-    merging that follows: restricting demoMerge to NUMA node 0 with BYNODESET|REMOVE_MEMLESS removes Package 1; the Package and L2 levels then have the same
-    structure, Package 0 is replaced by its L2 cache, and NUMA node 0 (complete cpuset {0,1}) becomes a memory child of the
-    L2 cache whose complete cpuset is {0}: the C01 clause "complete sets of a child are included in the parent's" fails.
-    hwloc behaves exactly like this (corpus/restrict/merge-complete-sets.ops); the engine does not judge that one clause on
-    exactly these calls unless VERIF_C08_INCLUDE_MERGE_SETS_DEFECT=1. -/
-theorem C08_merge_breaks_complete_sets_reachable :
-    ∃ (t : Topo) (s : CSet) (flags : Nat), okT t.tree = true ∧ (restrict t s flags).2 = .ok ∧
-      okT (restrict t s flags).1.tree = false :=
-  ⟨demoMerge, ⟨1, false⟩, flagByNodeset ||| flagRemoveMemless, by decide +kernel⟩
+/-- the case behind hwloc fix e57fd49 (corpus/restrict/merge-complete-sets.ops in miniature): restricting demoMerge to NUMA
+    node 0 with BYNODESET|REMOVE_MEMLESS removes Package 1; the Package and L2 levels then have the same structure, Package 0
+    is replaced by its L2 cache, which takes over the Package's complete cpuset {0,1}; NUMA node 0 (complete cpuset {0,1}) is
+    now a memory child of that L2 cache and SetsOK still holds -/
+example : okT demoMerge.tree = true ∧ (restrict demoMerge ⟨1, false⟩ (flagByNodeset ||| flagRemoveMemless)).2 = .ok ∧
+    (objsT (restrict demoMerge ⟨1, false⟩ (flagByNodeset ||| flagRemoveMemless)).1.tree).map (fun o => (o.gp, o.ccpuset))
+      = [(1, 3), (3, 3), (4, 1), (5, 3)] ∧
+    okT (restrict demoMerge ⟨1, false⟩ (flagByNodeset ||| flagRemoveMemless)).1.tree = true := by decide +kernel
 
 /-! ### histories -/
 
 /-- P0 restrict_repeat: along ANY list of restrict calls (successful or not, any sets, any flags, level merging included) the
-    multiset of object identities only shrinks -/
+    multiset of object identities only shrinks, and SetsOK is preserved -/
 theorem C08_repeat (t : Topo) (calls : List (CSet × Nat)) (a : RObj) :
-    cnt ident a (objsT (runCalls t calls).tree) ≤ cnt ident a (objsT t.tree) :=
-  cnt_runCalls ident a (fun p o => ident_shrinkG p o) calls t
+    cnt ident a (objsT (runCalls t calls).tree) ≤ cnt ident a (objsT t.tree) ∧
+    (okT t.tree = true → okT (runCalls t calls).tree = true) :=
+  ⟨cnt_runCalls ident a (fun p o => ident_shrinkG p o) (fun _ _ => rfl) calls t, ok_runCalls calls t⟩
+
+/-- … hence the exact statement about sets (C08_sets_exact_whole) holds for every successful call at the end of any history
+    that started from a SetsOK (well-formed) topology -/
+theorem C08_repeat_exact (t : Topo) (calls : List (CSet × Nat)) (hok : okT t.tree = true)
+    (s : CSet) (flags : Nat) (p : Params) (hp : plan (runCalls t calls) s flags = some p)
+    (hret : (restrict (runCalls t calls) s flags).2 = .ok) (a : RObj) :
+    (∀ x ∈ objsT (restrict (runCalls t calls) s flags).1.tree, shrinkU p x = x) ∧
+    cnt noComplete a (objsT (restrict (runCalls t calls) s flags).1.tree) ≤
+      cnt (fun x => noComplete (shrinkU p x)) a (objsT (runCalls t calls).tree) :=
+  restrict_exact _ s flags p hp hret (ok_runCalls calls t hok) a
 
 /-! ### non-vacuity and the reorder-without-removal case -/
 
